@@ -9,6 +9,7 @@ import (
 
 	"github.com/0chain/common/core/util"
 
+	"verif/harness/refmpt"
 	"verif/harness/sim"
 )
 
@@ -437,6 +438,60 @@ func (w *world) opLose(t *inst, op Op) {
 			return
 		}
 	}
+	if (op.N/13)%6 == 5 && !t.multiVer && len(before) > 0 {
+		// An update on the damaged trie: it may fail (it needs an absent node; whatever it leaves behind is outside
+		// this check and the run ends here), but if it reports success the trie - once the absent nodes are back - holds
+		// exactly the updated content under the canonical root of that content.
+		keys := sim.SortedKeys(before)
+		victim := keys[int(op.N/7)%len(keys)]
+		lt := util.NewMerklePatriciaTrie(t.db, util.Sequence(t.ver), root, w.newCache())
+		var r2 util.Key
+		var derr error
+		if w.guard("Delete on a trie with absent nodes", func() { r2, derr = lt.Delete(util.Path(victim)) }) {
+			return
+		}
+		if derr != nil {
+			w.stats.Inc("probe.update-on-a-damaged-trie-failed")
+			t.degraded = true
+			return
+		}
+		w.stats.Inc("probe.update-on-a-damaged-trie-succeeded")
+		r2 = append(util.Key{}, r2...)
+		want := map[string][]byte{}
+		for k, v := range before {
+			if k != victim {
+				want[k] = []byte(v)
+			}
+		}
+		if w.guard("MergeDB after the update", func() { derr = lt.MergeDB(donorDB, r2, nil) }) {
+			return
+		}
+		if derr != nil {
+			w.fail("c17.repair", "mergedb-error", "MergeDB returned %v", derr)
+			return
+		}
+		chk := util.NewMerklePatriciaTrie(t.db, util.Sequence(t.ver), r2, w.newCache())
+		got, _, gerr := content(chk)
+		if gerr != nil {
+			w.fail("c17.repair", "unreadable-after-update-and-repair", "a delete on the damaged trie reported success; after the repair the trie cannot be read: %v", gerr)
+			return
+		}
+		wm := map[string]string{}
+		for k, v := range want {
+			wm[k] = string(v)
+		}
+		if d := diffMaps(wm, got); d != "" {
+			w.fail("c17.repair", "content-after-update-and-repair", "a delete on the damaged trie reported success; after the repair the content differs: %s", d)
+			return
+		}
+		if canon := refmpt.Root(want, t.ver); !bytes.Equal(canon, r2) && !(len(canon) == 0 && len(r2) == 0) {
+			w.fail("c17.repair", "root-after-update-on-damaged-trie", "a delete on the damaged trie reported success with root %x; the canonical root of the resulting content is %x", r2, canon)
+			return
+		}
+		t.model = wm
+		t.mpt = chk
+		return
+	}
 	// repair at version = t.ver + op.T'... use op.P as "same"/"other" version selector
 	rver := t.ver
 	if op.P == "otherver" {
@@ -451,7 +506,15 @@ func (w *world) opLose(t *inst, op Op) {
 		w.stats.Inc("probe.repair-by-the-warm-trie-object")
 	}
 	var rerr error
-	if op.N%5 == 4 {
+	lvl, isLvl := t.db.(*util.LevelNodeDB)
+	if op.N%5 == 3 && isLvl && w.pndb != nil && lvl.GetPrev() == util.NodeDB(w.pndb) {
+		// a sync worker writes the fetched nodes straight into the persistent store underneath the level store
+		// the trie reads through (whose lookups of those nodes have just failed)
+		if w.guard("MergeState into the persistent level", func() { rerr = util.MergeState(context.Background(), donorDB, w.pndb) }) {
+			return
+		}
+		w.stats.Inc("probe.repair-written-into-the-persistent-level-underneath")
+	} else if op.N%5 == 4 {
 		// the other documented way: copy the donor store into the trie's store as a whole
 		if w.guard("MergeState", func() { rerr = util.MergeState(context.Background(), donorDB, t.db) }) {
 			return
